@@ -72,7 +72,7 @@ func VerifSendDataWriter(binary bool, newline string, sizes []int64, dflt int64,
 			frames = append(frames, VerifFrame{append([]byte(nil), d.data...), append([]byte(nil), d.buffer...)})
 			if !closing.Load() {
 				t.bufferSize.Store(next())
-				t.bufInitWG.Done()
+				t.bufInitDone()
 			}
 		}
 	}()
